@@ -44,6 +44,14 @@ class Report:
         self.deferred_errors: List[str] = []
 
     # ---- recording ------------------------------------------------------------------------------
+    def _rules_not_in_explanation(self) -> str:
+        """the prose explanation of a property was written with its first rules; rules added later are appended by title so that the
+        evidence file describes everything that was decided"""
+        later = [(k, v) for k, v in sorted(self.rules.items(), key=lambda kv: (len(kv[0]), kv[0])) if k not in self.explanation]
+        if not later:
+            return ""
+        return " Further rules decided on this run: " + "; ".join("%s %s" % (k, v) for k, v in later) + "."
+
     def rule(self, rid: str, text: str):
         self.rules[rid] = text
 
@@ -156,7 +164,7 @@ class Report:
             if d not in samples:
                 samples.append(d)
         cov = {
-            "explanation": self.explanation,
+            "explanation": self.explanation + self._rules_not_in_explanation(),
             "obligations": len(real),
             "discharged": len([o for o in real if o.status == OK]),
             "known_findings": nknown,
